@@ -467,6 +467,9 @@ def getitem(I, st, obj, idx):
             return
         if e.kind == "obj":
             m, _ = I.class_lookup(e.cls, "__getitem__")
+            if m is None and "__tuple__" in e.attrs:
+                yield from getitem(I, st, e.attrs["__tuple__"], idx)
+                return
             if m is None:
                 yield st, exc("TypeError", "object is not subscriptable")
                 return
@@ -681,6 +684,8 @@ def iterate(I, st, v):
             from . import npmodel
 
             return npmodel.nd_rows(I, st, v)
+        if e.kind == "obj" and "__tuple__" in e.attrs and I.class_lookup(e.cls, "__iter__")[0] is None:
+            return list(e.attrs["__tuple__"])
         if e.kind == "obj":
             m, _ = I.class_lookup(e.cls, "__iter__")
             if m is not None:
